@@ -44,6 +44,9 @@ class Sched:
         self.deadlock = False
         self.error = None
         self.trace = []
+        self.pos = {}          # per thread: label of the line it is about to execute
+        self.keys = []         # per decision: abstract state before the decision (for state caching)
+        self.shared = lambda: None
 
     def enabled(self):
         en = [t for t, st in self.state.items() if st == "run"]
@@ -60,6 +63,7 @@ class Sched:
     def point(self, me, label):
         with self.cv:
             self.trace.append((me, label))
+            self.pos[me] = label
             self._dispatch()
             while self.current != me and not self.killed:
                 self.cv.wait()
@@ -87,6 +91,9 @@ class Sched:
                 i = 0
             self.taken.append(i)
             self.points.append((en, en[0] == self.current and self.state.get(self.current) == "run"))
+            # abstract state: program counters, scheduler bookkeeping, virtual clock, the shared heap
+            self.keys.append((tuple(sorted((k, str(v)) for k, v in self.pos.items())), tuple(sorted(self.state.items())),
+                              self.current, self.vtime, self.join_timeout, self.shared()))
             c = en[i]
             if c == "net":
                 self.state["upd"] = "run"
@@ -181,6 +188,7 @@ def run_one(choices, answer, net_ready, group, args):
         mod = importlib.import_module("ascmhl.cli." + group)
         mod = importlib.reload(mod)
         cli = mod.mhltool_cli if group == "ascmhl" else mod.mhldebugtool_cli
+        S.shared = lambda: (repr(getattr(mod.updater, "latest_version", None)), getattr(mod.updater, "finished", None))
         # the thread object exists now (created at import); wait until it has registered with the scheduler,
         # then the first decision: who goes first
         with S.cv:
@@ -206,14 +214,24 @@ def run_one(choices, answer, net_ready, group, args):
     return S, result, (thread_exc[0] if thread_exc else None)
 
 
-def explore(answer, net_ready, group, args, bound, judge, cap=None):
-    """DFS over choice sequences; judge(S, result, thread_exc, choices) -> list of violations.
-    returns (executions, violations, outcomes dict, capped)"""
+def explore(answer, net_ready, group, args, bound, judge, cap=None, cache=False):
+    """DFS over choice sequences; judge(S, result, thread_exc, choices) -> (violations, outcome key).
+
+    cache=False: stateless, every schedule within the preemption bound is executed.
+    cache=True (only with bound=None): stateful - a (abstract state, choice) pair is executed once.  The abstract
+    state holds both program counters (next source line of each thread), the scheduler bookkeeping (who is blocked
+    on what, whether the response / timeout is pending), the virtual clock and the shared heap (latest_version,
+    finished).  Thread-local data is a function of the program counter and these (the response object is fixed per
+    exploration; needs_update reads latest_version, which is written once), so equal keys have equal futures.
+    returns (executions, violations, outcomes dict, capped, distinct states)"""
+    assert not (cache and bound is not None)
     stack = [([], 0)]
     n = 0
     viols = []
     outcomes = {}
     capped = False
+    done = set()
+    states = set()
     while stack:
         prefix, used = stack.pop()
         S, r, texc = run_one(prefix, answer, net_ready, group, args)
@@ -228,18 +246,24 @@ def explore(answer, net_ready, group, args, bound, judge, cap=None):
         if cap and n >= cap:
             capped = True
             break
-        # preemptions used inside the prefix were counted by the parent; recount along the taken path
         cost = 0
         costs = []
         for i, (en, running_enabled) in enumerate(S.points):
             costs.append(cost)
             if S.taken[i] != 0 and running_enabled:
                 cost += 1
+            states.add(S.keys[i])
+            if cache:
+                done.add((S.keys[i], S.taken[i]))
         for i in range(len(prefix), len(S.points)):
             en, running_enabled = S.points[i]
             for alt in range(1, len(en)):
                 c = costs[i] + (1 if running_enabled else 0)
                 if bound is not None and c > bound:
                     continue
+                if cache:
+                    if (S.keys[i], alt) in done:
+                        continue
+                    done.add((S.keys[i], alt))
                 stack.append((S.taken[:i] + [alt], c))
-    return n, viols, outcomes, capped
+    return n, viols, outcomes, capped, len(states)
